@@ -253,8 +253,8 @@ void vfps::FokkerPlanckMap::applyTo(PhaseSpace::Position &pos) const
             hi h = _hinfo[yi*_ip+j];
             charge += data_in[offs+h.index]*h.weight;
             offset += data_in[offs+h.index]*h.weight
-                    * (static_cast<std::make_signed<meshindex_t>::type>(h.index)
-                      - yi);
+                    * (yi
+                      - static_cast<std::make_signed<meshindex_t>::type>(h.index));
         }
         offset /= charge;
         pos.y = std::max( static_cast<meshaxis_t>(1)
